@@ -562,7 +562,9 @@ theorem C01_next_step_no_fault_partial (K N T : Nat) (hK : 0 < K) (cfg : Cfg)
     executable, sound check of `EnvRun0`) — here the 93 steps of `hazSchedH2`: a reader on the
     fallback path publishes its candidate, a concurrent writer replaces the content of the
     container, walks the list, finds the reader's window closed, pays the debt in the helping slot;
-    the reader's own pay-off fails and it gives its extra reference back; both threads exit -/
+    the reader's own pay-off fails and it gives its extra reference back; both threads exit.
+    (`Inv/EnvEx` also checks a 503-step round-robin execution of three threads on the default
+    strategy — `exM`, `schedM`: `load`, `rcu`, `store`, `compare_and_swap`, `load_full`, `swap`.) -/
 example : EnvRun0 2 4 2 hazExH hazSchedH2 ∧ ((run hazExH hazSchedH2).th 0).op = .finished ∧
     ((run hazExH hazSchedH2).th 1).op = .finished ∧ ((run hazExH hazSchedH2).sh.heap 1).cnt = 1 :=
   ⟨envRun0_of_B ⟨_, _, [], rfl⟩ (by decide +kernel), by decide +kernel, by decide +kernel, by decide +kernel⟩
